@@ -7,11 +7,12 @@ META = {
     "driver_id": "Edit",
     "coq_targets": ["Props/C03.vo", "Extract/Extract_Edit.vo"],
     "technique": 'Coq invariant / refinement proofs over the executable edit-machine model + step-by-step differential correspondence of the extracted model with the implementation + direct oracle on the implementation',
-    "level_text": 'Theorems (closed under the global context) about the edit-machine model on every state satisfying W_dict and W_forest: C03_delete_edge and C03_add_edge (every accepted UserDeleteEdge / UserAddEdge, all branches and forced variants, returns a forward-in-time binary forest; exactly the new edge is added and only other in-edges of the target are removed, none without force), C03_swap and C03_swap_accepted_iff (UserSwapPredecessors: forest kept, exactly the two parents exchanged, accepted iff its own checks pass), C03_add_edge_refusals (unknown endpoint, non-forward edge, third child: InvalidActionError; merge without force: forceable InvalidActionError; state untouched), C03_update_track_ids (the relabel walk terminates on every forest and keeps the graph). C03_delete_node / C03_delete_node_accepted_iff and C03_add_node / C03_add_node_accepted_iff (UserDeleteNode and UserAddNode on states that also satisfy W_trk and W_book: exact acceptance condition, forest kept, exact node and edge set of the result - bridge edge, spliced skip edge, forced cuts only); C03_run_edge_calls (every state reachable from a well-formed state by any sequence, of any length, of edge-level calls - add / delete edge with and without force, swap, track queries, fresh ids - satisfies the complete invariant WF: dictionaries, forest, track ids, lineage ids, lookups, label/node correspondence, fresh features; induction over the call list); C03_run_node_calls (the same reachability statement with UserAddNode and UserDeleteNode included, accepted or refused, each UserAddNode respecting its documented preconditions - integer time / track id, no caller-supplied lineage id, and with a segmentation a non-zero id and background pixels of its own frame; Proofs/EditWFNodeExample.v shows three accepted calls outside these preconditions that break the invariant); C03_sessions (from a well-formed state with an empty history, EVERY state reached along ANY sequence - of any length - of calls of the WHOLE public interface of the edit machine - edge, swap, node, attribute and stroke edits, undo, redo, queries - accepted or refused, satisfies the complete invariant WF; hypotheses: three configuration facts no call changes, and the documented per-call preconditions of UserAddNode / node calls without segmentation at the moment each call is made; strokes, edge calls, attribute updates, undo and redo have none); C03_paint and C03_run_paint_calls (every accepted stroke yields a well-formed state; every refused stroke too, the rolled-back one included); C03_user_actions_are_generated (the seven composite user actions of the model equal, for all arguments, the code translated on every run from the current user_actions/*.py). Every clause of the property has a theorem about the model; for them the check rests on the step-by-step differential correspondence of the extracted model with the implementation and the direct forest oracle (in/out degrees, time order, forced-minimality) after every operation.',
+    "level_text": 'Theorems (closed under the global context) about the edit-machine model on every state satisfying W_dict and W_forest: C03_delete_edge and C03_add_edge (every accepted UserDeleteEdge / UserAddEdge, all branches and forced variants, returns a forward-in-time binary forest; exactly the new edge is added and only other in-edges of the target are removed, none without force), C03_swap and C03_swap_accepted_iff (UserSwapPredecessors: forest kept, exactly the two parents exchanged, accepted iff its own checks pass), C03_add_edge_refusals (unknown endpoint, non-forward edge, third child: InvalidActionError; merge without force: forceable InvalidActionError; state untouched), C03_update_track_ids (the relabel walk terminates on every forest and keeps the graph). C03_delete_node / C03_delete_node_accepted_iff and C03_add_node / C03_add_node_accepted_iff (UserDeleteNode and UserAddNode on states that also satisfy W_trk and W_book: exact acceptance condition, forest kept, exact node and edge set of the result - bridge edge, spliced skip edge, forced cuts only); C03_run_edge_calls (every state reachable from a well-formed state by any sequence, of any length, of edge-level calls - add / delete edge with and without force, swap, track queries, fresh ids - satisfies the complete invariant WF: dictionaries, forest, track ids, lineage ids, lookups, label/node correspondence, fresh features; induction over the call list); C03_run_node_calls (the same reachability statement with UserAddNode and UserDeleteNode included, accepted or refused, each UserAddNode respecting its documented preconditions - integer time / track id, no caller-supplied lineage id, and with a segmentation a non-zero id and background pixels of its own frame; Proofs/EditWFNodeExample.v shows three accepted calls outside these preconditions that break the invariant); C03_sessions (from a well-formed state with an empty history, EVERY state reached along ANY sequence - of any length - of calls of the WHOLE public interface of the edit machine - edge, swap, node, attribute and stroke edits, undo, redo, queries - accepted or refused, satisfies the complete invariant WF; hypotheses: three configuration facts no call changes, and the documented per-call preconditions of UserAddNode / node calls without segmentation at the moment each call is made; strokes, edge calls, attribute updates, undo and redo have none); C03_paint and C03_run_paint_calls (every accepted stroke yields a well-formed state; every refused stroke too, the rolled-back one included); C03_user_actions_are_generated (the seven composite user actions of the model equal, for all arguments, the code translated on every run from the current user_actions/*.py); C03_sessions_from_construction (the start state need not be assumed well formed: for every valid raw solution - forest, labels and nodes one-to-one, fresh feature table, true oracle partitions - the state constructed by enabling the core features with recomputation is well formed, so every session over the whole interface from it stays well formed). Every clause of the property has a theorem about the model; for them the check rests on the step-by-step differential correspondence of the extracted model with the implementation and the direct forest oracle (in/out degrees, time order, forced-minimality) after every operation. C03_core_is_generated: one level further down, the queries, the node-id counter, Tracks.undo / redo and the seven basic actions with their inverses of the model equal the code translated on every run from solution_tracks.py, tracks.py, _track_annotator.py and actions/*.py (Gen/Core_gen.v; statement in Proofs/CoreTieBundle.v).',
     "level_note": 'Trusted: Coq kernel, extraction (ExtrOcamlBasic only), OCaml driver drv_Edit.ml, Python harness and oracles. Modelled, not verified: networkx DiGraph dict semantics, numpy indexing, skimage regionprops (symbolic: value = function of key, mask, spacing), psygnal. The theorems are about the hand-written model coq/Model/Edit.v; the tie to /repo is the step-by-step differential execution of the extracted model against the implementation on every run. Tied to the source in a second way: the history mechanism (action_history.py) and the seven composite user actions (user_actions/*.py) are re-translated on every run by fail-closed translators (harness/translate_history.py, translate_user_actions.py; closed idiom tables; runtime combinators Model/PyRt.v) and proved equal to the hand-written model for all arguments (Proofs/HistoryTie.v, UserActionsTie.v); trusted there: the idiom tables and combinators, and the stated conventions (get_time / successors on a missing node do not raise, StopIteration reported as KeyError, feature keys never None).',
     "design_ref": "DESIGN.md section 9 (C03)",
     "assumptions": ['the caller does not pass a lineage id to UserAddNode (outside its documented domain)', 'track_id and lineage_id features stay enabled during editing sessions', 'labels/ids are positive; times are frame indices within the array'],
-    "trusted": ["translators harness/translate_history.py and harness/translate_user_actions.py (closed idiom tables in their docstrings; fail closed) with the runtime combinators coq/Model/PyRt.v",
+    "trusted": ["translator harness/translate_core.py (closed idiom table; fail closed) with coq/Model/PyRt3.v; hand models left under it: regionprops / edge annotator update, bulk compute, networkx and array primitives",
+                "translators harness/translate_history.py and harness/translate_user_actions.py (closed idiom tables in their docstrings; fail closed) with the runtime combinators coq/Model/PyRt.v",
                 "correspondence harness harness/editmachine.py (scenario generator, canonicalisation, numeric references for regionprops / IoU)",
                 "oracles harness/edit_oracles.py"],
 }
@@ -30,6 +31,12 @@ def pre_build(ctx):
     translate_user_actions.regenerate(repo=str(__import__("common").REPO))
     if not translate_user_actions.LAST.get("ok"):
         raise RuntimeError("translator refused user_actions/*.py: %s" % translate_user_actions.LAST.get("msg"))
+    # the code the user actions call: queries, id counter, undo / redo, basic actions (Gen/Core_gen.v)
+    import translate_core
+
+    ok, msg = translate_core.regenerate()
+    if not ok:
+        raise RuntimeError("translator refused the core sources: %s" % msg)
 
 
 def run(ctx):
